@@ -14,6 +14,8 @@ import (
 )
 
 type gen struct {
+	shape    func(pos, n, L int) string // nil: plain reader
+	lite     bool                       // reduced pattern counts (the shaped re-runs of the families)
 	o        *hlib.Out
 	r        *hlib.Rand
 	thorough bool
@@ -57,11 +59,19 @@ func (g *gen) emit(kind string, pos int, payload string, tail string, trunc int,
 		all = all[:trunc]
 	}
 	buf, L := bitio.BytesFromBitString(all)
-	obs := runCase(g.o, L, buf, int64(pos), endian, method, args)
+	shape := ""
+	if g.shape != nil {
+		shape = g.shape(pos, len(payload), int(L))
+	}
+	obs := runCase(g.o, shape, L, buf, int64(pos), endian, method, args)
 	g.used[method] = true
 	g.n++
 	if len(payload) > 0 {
-		g.o.Class(fmt.Sprintf("%s|%s|%d|%s|%s", method, strings.Join(args, ","), pos%8, kind, endian))
+		sk := ""
+		if shape != "" {
+			sk = shape[:1]
+		}
+		g.o.Class(fmt.Sprintf("%s|%s|%d|%s|%s|%s", method, strings.Join(args, ","), pos%8, kind, endian, sk))
 	}
 	if g.n%9973 == 1 {
 		g.o.Sample(fmt.Sprintf("rd %d %s %d %s %s %s -> %s", L, hlib.Hex(buf), pos, endian, method, strings.Join(args, " "), obs))
@@ -275,11 +285,16 @@ func (g *gen) floats() {
 	}
 	ci := 0
 	step16 := 1
+	if g.lite {
+		step16 = 61
+	}
 	for h := 0; h < 65536; h += step16 {
 		run("f16", ci, 16, bitsOfUint(uint64(h), 16))
 		ci++
 	}
-	g.o.Stat("float16_patterns_all", 1)
+	if !g.lite {
+		g.o.Stat("float16_patterns_all", 1)
+	}
 
 	var b32 []uint64
 	for _, s := range []uint64{0, 1 << 31} {
@@ -291,6 +306,9 @@ func (g *gen) floats() {
 	nr := 300
 	if g.thorough {
 		nr = 20000
+	}
+	if g.lite {
+		nr = nr / 10
 	}
 	for i := 0; i < nr; i++ {
 		v := g.r.U64() & 0xffffffff
@@ -356,6 +374,9 @@ func (g *gen) floats() {
 	nr80 := 1500
 	if g.thorough {
 		nr80 = 40000
+	}
+	if g.lite {
+		nr80 = nr80 / 10
 	}
 	for i := 0; i < nr80; i++ {
 		m := g.r.U64()
@@ -820,6 +841,101 @@ func (g *gen) text() {
 	g.emit("neg", 0, "", g.tail(), -1, "be", "TryUTF8NullFixedLen", "-1")
 }
 
+func joinInts(vs []int) string {
+	ss := make([]string, len(vs))
+	for i, v := range vs {
+		ss[i] = strconv.Itoa(v)
+	}
+	return strings.Join(ss, ",")
+}
+
+// randomShape: how the input is delivered — part boundaries in and around the read [pos, pos+n)
+func (g *gen) randomShape(pos, n, L int) string {
+	if L == 0 {
+		return ""
+	}
+	lo, hi := pos-2, pos+n+2
+	if lo < 0 {
+		lo = 0
+	}
+	if hi > L {
+		hi = L
+	}
+	pick := func() int { return g.r.Range(lo, hi) }
+	sorted := func(k int) []int {
+		vs := make([]int, k)
+		for i := range vs {
+			vs[i] = pick()
+		}
+		for i := range vs {
+			for j := i + 1; j < len(vs); j++ {
+				if vs[j] < vs[i] {
+					vs[i], vs[j] = vs[j], vs[i]
+				}
+			}
+		}
+		return vs
+	}
+	switch g.r.Intn(8) {
+	case 0, 1:
+		return "m:" + joinInts(sorted(1))
+	case 2:
+		return "m:" + joinInts(sorted(2))
+	case 3:
+		return "m:" + joinInts(sorted(3)) // repeated offsets: empty parts
+	case 4: // a one-bit part (and an empty one)
+		b := pick()
+		if b+1 <= L {
+			return "m:" + joinInts([]int{b, b, b + 1})
+		}
+		return "m:" + joinInts([]int{b})
+	case 5:
+		return fmt.Sprintf("s:%d:%s", 1+g.r.Intn(13), joinInts(sorted(1+g.r.Intn(2))))
+	default:
+		return fmt.Sprintf("k:%d", []int{1, 2, 3, 5, 7, 8, 9, 13, 16, 17, 64}[g.r.Intn(11)])
+	}
+}
+
+// shapedSweep: every width x every part boundary from 2 bits before the read to 2 bits after it
+func (g *gen) shapedSweep() {
+	var b int
+	g.shape = func(pos, n, L int) string { return fmt.Sprintf("m:%d", b) }
+	for w := 1; w <= 64; w++ {
+		aligns := []int{(w * 3) % 8}
+		if g.thorough {
+			aligns = []int{0, 1, 2, 3, 4, 5, 6, 7}
+		}
+		for _, a := range aligns {
+			for b = 0; b <= a+w+10; b++ {
+				tail := randBits(g.r, 10)
+				switch b % 3 {
+				case 0:
+					g.emit("sweep", a, randBits(g.r, w), tail, -1, "be", "TryU", strconv.Itoa(w))
+				case 1:
+					g.emit("sweep", a, randBits(g.r, w), tail, -1, "le", "S", strconv.Itoa(w))
+				default:
+					g.emit("sweep", a, randBits(g.r, w), tail, -1, "be", fmt.Sprintf("FieldU%d", w))
+				}
+				if w%8 == 0 {
+					g.emit("sweep", a, randBits(g.r, w), tail, -1, "be", fmt.Sprintf("TryU%dLE", w))
+				}
+			}
+		}
+	}
+	// short reads of every size against every width
+	for k := 1; k <= 17; k++ {
+		kk := k
+		g.shape = func(pos, n, L int) string { return fmt.Sprintf("k:%d", kk) }
+		for w := 1; w <= 64; w++ {
+			g.emit("short", (w+k)%8, randBits(g.r, w), randBits(g.r, 10), -1, "be", "TryU", strconv.Itoa(w))
+		}
+		for _, w := range []int{65, 72, 127, 128, 129, 255} {
+			g.emit("short", (w+k)%8, randBits(g.r, w), randBits(g.r, 10), -1, "be", "TrySBigInt", strconv.Itoa(w))
+		}
+	}
+	g.shape = nil
+}
+
 func generate(o *hlib.Out, cfg hlib.Config) {
 	g := &gen{o: o, r: hlib.NewRand(cfg.Seed), thorough: cfg.Thorough(), used: map[string]bool{}}
 	methods := readerMethods()
@@ -831,6 +947,21 @@ func generate(o *hlib.Out, cfg hlib.Config) {
 	g.leb128()
 	g.unaryBool()
 	g.text()
+
+	// the same families on inputs delivered as MultiReader concatenations (2-4 parts incl. empty and
+	// one-bit parts, boundaries in and around the read), SectionReader-of-MultiReader, short-reading readers
+	g.shapedSweep()
+	g.lite = true
+	g.shape = g.randomShape
+	g.genericInts()
+	g.bigInts()
+	g.floats()
+	g.fixedPoint()
+	g.leb128()
+	g.unaryBool()
+	g.text()
+	g.shape = nil
+	g.lite = false
 
 	// every scalar reader method of *decode.D (by name) must have been exercised
 	missing := 0
